@@ -200,6 +200,9 @@ def api_batches(chk, rng, n):
                 if mode in ("defaults-batch", "context", "ignore-result"):
                     fn = base.ignore_result() if mode == "ignore-result" else base
                     kws = [{"x": x} for x in xs]
+                    if mode == "defaults-batch":
+                        # the elements do not all name the same parameters (defaults given in some elements only, in any order)
+                        kws = [dict(kw, **[{}, {"factor": 3}, {"offset": 7}, {"offset": 1, "factor": 5}, {}][(j + it) % 5]) for j, kw in enumerate(kws)]
                     if side == "batch":
                         try:
                             rs = [show(r) for r in fn.call_batch(kws, raise_first_exception=rf)]
